@@ -51,7 +51,9 @@ def build_jobs(chk, q):
     # F: positions in which every line is a draw at once (dead material): a search without any limit runs through the whole
     # depth range (255 iterations) within milliseconds and must come back with a move by itself
     for i, f in enumerate(["8/8/8/4k3/8/8/8/4K3 w - - 0 1", "8/8/8/4k3/8/8/8/4K3 b - - 0 1", "8/8/3k4/8/8/3BK3/8/8 w - - 10 40",
-                           "8/8/3k4/8/8/3NK3/8/8 b - - 0 1", "7k/8/8/8/8/8/8/K7 w - - 0 1"]):
+                           "8/8/3k4/8/8/3NK3/8/8 b - - 0 1", "7k/8/8/8/8/8/8/K7 w - - 0 1",
+                           # two plies from the fifty-move rule, no capture or pawn move available: the tree is two plies deep at every depth
+                           "8/2k5/8/8/8/5N2/3K1R2/8 w - - 98 70", "8/8/8/3k4/8/2B5/3K1Q2/8 b - - 98 90", "8/2k5/8/8/8/5N2/3K1R2/8 b - - 97 70"]):
         jobs.append({"hash": 1, "tag": "whole-depth-range", "searches": [{"pos": searches.fen2pos(f)}, {"pos": searches.fen2pos(f), "depth": 255},
                                                                           {"pos": roots[i % len(roots)], "depth": 2}]})
     # D: scores that jump through the aspiration window (mate found at depth >= 5)
